@@ -139,6 +139,19 @@ struct ValueGen {
     double U() { if (pclass == "negU") return -std::abs(real_amp()); if (pclass == "free") return 0; return std::abs(real_amp()) + (pclass == "integers" ? 0 : 0.3); }
 };
 
+// Fixed input of finding #18 (DESIGN 9.3): two Hubbard sites (or, quadratic: two levels per spin) with hopping and Zeeman fields of 1e-8 and 4e-9,
+// i.e. level splittings of about the width of the library's reduction windows.
+inline ModelSpec finding18_model(bool quadratic) {
+    ModelSpec m; m.beta = 4.0; m.pclass = "finding18";
+    for (int s = 0; s < 2; ++s) { SiteSpec S; S.label = s ? "B" : "A"; S.norb = 1; S.nspin = 2; m.sites.push_back(S); }
+    for (int s = 0; s < 2; ++s) {
+        Op o; o.kind = Op::COULOMB_S; o.a = o.b = s; o.v1 = quadratic ? 0.0 : (s ? 1.5 : 1.7); o.v2 = s ? -0.4 : -0.5; m.ops.push_back(o);
+        Op mg; mg.kind = Op::MAG; mg.a = mg.b = s; mg.v1 = s ? 4e-9 : 1e-8; m.ops.push_back(mg);
+    }
+    Op h; h.kind = Op::HOP_ALL; h.a = 1; h.b = 0; h.v1 = 0.3; m.ops.push_back(h);
+    return m;
+}
+
 inline ModelSpec gen_model(Rng& r, const GenOpts& g) {
     ModelSpec m;
     for (int attempt = 0; attempt < 200; ++attempt) {
